@@ -297,6 +297,9 @@ class Interp:
         k = self._key(pl)
         kind = rv['k']
         v = None
+        # what is overwritten is no longer what its copies were taken from
+        for ak in [a for a in st if a and a[0] == 'alias' and isinstance(st[a], tuple) and st[a][:len(k)] == k]:
+            del st[ak]
         if kind == 'use':
             o = rv['op']
             src = o.get('copy') or o.get('move')
@@ -307,6 +310,8 @@ class Interp:
                 for kk in list(st.keys()):
                     if kk[:len(sk)] == sk and len(kk) > len(sk):
                         st[k + kk[len(sk):]] = st[kk]
+                        if isinstance(st[kk], Iv):
+                            st[('alias',) + k + kk[len(sk):]] = kk      # a later comparison on the copy refines the original too
                         moved = True
                 if moved and sk not in st:
                     return
@@ -364,12 +369,15 @@ class Interp:
                         for kk in list(st.keys()):
                             if kk[:len(sk)] == sk and len(kk) > len(sk) and isinstance(st[kk], Iv):
                                 st[k + (fname,) + kk[len(sk):]] = st[kk]
+                                st[('alias',) + k + (fname,) + kk[len(sk):]] = kk
                                 nested = True
                     if nested:
                         continue
                     fv = self._op(st, body, f)
                     if isinstance(fv, Iv):
                         st[k + (fname,)] = fv
+                        if src is not None:
+                            st[('alias',) + k + (fname,)] = self._key(src)
             return
         elif kind in ('ref', 'rawptr'):
             # a reference to a tracked scalar: alias its interval
@@ -429,7 +437,7 @@ class Interp:
             st[k] = val
             src = st.get(('alias',) + k)
             seen = 0
-            while isinstance(src, tuple) and seen < 4:
+            while isinstance(src, tuple) and seen < 10:
                 if isinstance(st.get(src), Iv) or src not in st:
                     st[src] = val
                 src = st.get(('alias',) + src)
